@@ -250,3 +250,10 @@ def c04_wind_failure_request(ctx, v):
                 ok += 1
     v.covers_total += 1
     v.covers_sat += 1 if ok else 0
+
+
+def c04_ringitem_delete(ctx, v):
+    """refusing a block must not touch the chain-index entries of other blocks in the same slot —
+    same id, other hash, included (same obligation as C03 c03_m_ringitem_delete)."""
+    from . import obl_c03
+    obl_c03.c03_m_ringitem_delete(ctx, v)
